@@ -197,7 +197,7 @@ pub fn run_c(root_fd: Option<i32>, handle_fd: Option<i32>, op: &Value) -> Outcom
 /// C16: many threads fail and consume errors concurrently.  Returns a report:
 /// ids handed out while all were live, per-id consumption results, and a
 /// serialised history (store/take under a harness lock) for model replay.
-pub fn error_stress(root: c_int, nthreads: usize, per_thread: usize, seed: u64, flood: usize) -> Value {
+pub fn error_stress(root: c_int, nthreads: usize, per_thread: usize, seed: u64, flood: usize, churn: usize) -> Value {
     use std::sync::{Arc, Mutex};
     let mut violations: Vec<Value> = vec![];
     // kinds: (name, expected errno)
@@ -397,6 +397,58 @@ pub fn error_stress(root: c_int, nthreads: usize, per_thread: usize, seed: u64, 
                                    "second_call_not_null": not_gone, "example": example}));
         }
     }
+    // phase B4: very many store/take cycles, each error consumed at once.  An id outside the documented range that turns up
+    // once in 10^5..10^6 stores (an arithmetic slip at the edge of the id space) is found here; nothing is outstanding.
+    let mut churn_stats = json!({"n": 0});
+    if churn > 0 {
+        let threads = 8usize;
+        let per = churn / threads;
+        let mut hs = vec![];
+        for _t in 0..threads {
+            hs.push(std::thread::spawn(move || {
+                let (mut bad, mut nulls, mut wrong) = (0u64, 0u64, 0u64);
+                let mut ex: Option<c_int> = None;
+                for _ in 0..per {
+                    unsafe {
+                        let id = pathrs_inroot_resolve(root, std::ptr::null());
+                        if id >= -4095 {
+                            bad += 1;
+                            if ex.is_none() {
+                                ex = Some(id);
+                            }
+                        }
+                        let e = pathrs_errorinfo(id);
+                        if e.is_null() {
+                            nulls += 1;
+                        } else {
+                            if (*e).saved_errno != libc::EINVAL as u64 {
+                                wrong += 1;
+                            }
+                            pathrs_errorinfo_free(e);
+                        }
+                    }
+                }
+                (bad, nulls, wrong, ex)
+            }));
+        }
+        let (mut bad, mut nulls, mut wrong) = (0u64, 0u64, 0u64);
+        let mut ex: Option<c_int> = None;
+        for h in hs {
+            let (b, n, w, e) = h.join().unwrap();
+            bad += b;
+            nulls += n;
+            wrong += w;
+            if ex.is_none() {
+                ex = e;
+            }
+        }
+        churn_stats = json!({"n": per * threads, "ids_not_below_minus_4095": bad, "first_call_null": nulls, "wrong_errno": wrong});
+        if bad > 0 || nulls > 0 || wrong > 0 {
+            violations.push(json!({"what": "over very many failing calls, an error id outside the documented range / an errorinfo that is not that failure's",
+                                   "stores": per * threads, "ids_not_below_minus_4095": bad, "first_call_null": nulls, "wrong_errno": wrong,
+                                   "example_id": ex}));
+        }
+    }
     // phase C: interleaved store/take with a serialised log
     let log: Arc<Mutex<Vec<Value>>> = Arc::new(Mutex::new(vec![]));
     let pool: Arc<Mutex<Vec<(c_int, String)>>> = Arc::new(Mutex::new(vec![]));
@@ -438,5 +490,5 @@ pub fn error_stress(root: c_int, nthreads: usize, per_thread: usize, seed: u64, 
     let min_id = all.iter().map(|x| x.2).min().unwrap_or(0);
     let max_id = all.iter().map(|x| x.2).max().unwrap_or(0);
     let history = log.lock().unwrap().clone();
-    json!({"n_ids": all.len(), "min_id": min_id, "max_id": max_id, "violations": violations, "history": history, "flood": flood_stats})
+    json!({"n_ids": all.len(), "min_id": min_id, "max_id": max_id, "violations": violations, "history": history, "flood": flood_stats, "churn": churn_stats})
 }
